@@ -296,8 +296,11 @@ fn worker(path: &str) {
     let item: Item = serde_json::from_str(&std::fs::read_to_string(path).expect("item file")).expect("item json");
     let reps: usize = std::env::var("VF_CONC_REPS").ok().and_then(|s| s.parse().ok()).unwrap_or(3);
     let out = std::io::stdout();
-    for k in POOLS {
+    let pools: Vec<usize> = std::env::var("VF_CONC_POOLS").ok().map(|s| s.split(',').filter_map(|x| x.parse().ok()).collect()).unwrap_or_else(|| POOLS.to_vec());
+    for k in pools {
         let pool = rayon::ThreadPoolBuilder::new().num_threads(k).build().expect("pool");
+        // the fixed sizes are repeated, the additional ones run once
+        let reps = if POOLS.contains(&k) { reps } else { 1 };
         for rep in 0..reps {
             let r = pool.install(|| vf_core::catch(|| run_item(&item)));
             let mut o = out.lock();
@@ -318,6 +321,26 @@ fn worker(path: &str) {
 fn worker(_path: &str) {
     eprintln!("this build has no concurrent feature; worker mode unavailable");
     std::process::exit(2);
+}
+
+/// Thread-pool sizes an item is computed under: every size 1..=64 for the library-level items (they are
+/// cheap), the thirteen fixed sizes plus five more derived from the item for whole proofs.
+fn pools_for(item: &Item, json: &str) -> Vec<usize> {
+    match item {
+        Item::Proof { .. } => {
+            let mut v = POOLS.to_vec();
+            let mut h = vf_core::hash_str(json);
+            while v.len() < POOLS.len() + 5 {
+                let k = (h % 64) as usize + 1;
+                h = h / 64 + 0x9e37_79b9;
+                if !v.contains(&k) {
+                    v.push(k);
+                }
+            }
+            v
+        },
+        _ => (1..=64).collect(),
+    }
 }
 
 // SUPERVISOR (serial build)
@@ -407,7 +430,7 @@ impl SubCheck for Conc {
     }
     fn rule(&self) -> String {
         format!(
-            "workload items on both sides of every concurrency threshold: FFT evaluate/interpolate (with offset and blowup)/twiddles at n in {{512,1024,2048,8192}}, power series / batch inversion with zeros / add_in_place / mul_acc at lengths {{1,1023,1024,1025,2047,2048,4096,10000}}, transpose_slice, Merkle trees of 2..4096 leaves (4 hashers), RowMatrix::evaluate_polys_over::<1|2|4|8|16> + row commitments for 1..255 columns x 8..16384 LDE rows (base and extension), apply_drp + hash_values, whole GenAir proofs up to 2^12 (quick) / 2^14 rows (constraint evaluation domains on both sides of 8192); each item is computed serially (build without the feature) and in the concurrent build inside rayon pools of {:?} threads, 2 (quick) / 3 (thorough) repetitions each; all digests must be equal (for proofs: context, all commitments, OOD frame; both proofs must verify; nonce and query data exempt); non-trivial = item at or above its concurrency threshold; schedules are sampled, not enumerated",
+            "workload items on both sides of every concurrency threshold: FFT evaluate/interpolate (with offset and blowup)/twiddles at n in {{512,1024,2048,8192}}, power series / batch inversion with zeros / add_in_place / mul_acc at lengths {{1,1023,1024,1025,2047,2048,4096,10000}}, transpose_slice, Merkle trees of 2..4096 leaves (4 hashers), RowMatrix::evaluate_polys_over::<1|2|4|8|16> + row commitments for 1..255 columns x 8..16384 LDE rows (base and extension), apply_drp + hash_values, whole GenAir proofs up to 2^12 (quick) / 2^14 rows (constraint evaluation domains on both sides of 8192); each item is computed serially (build without the feature) and in the concurrent build inside rayon pools of {:?} threads, 2 (quick) / 3 (thorough) repetitions each, and once in pools of every other size 1..64 (whole proofs: five other sizes derived from the item); all digests must be equal (for proofs: context, all commitments, OOD frame; both proofs must verify; nonce and query data exempt); non-trivial = item at or above its concurrency threshold; schedules are sampled, not enumerated",
             POOLS
         )
     }
@@ -441,10 +464,13 @@ impl SubCheck for Conc {
         let json = serde_json::to_string(item).unwrap();
         let path = format!("{dir}/item-{:016x}-{:?}.json", vf_core::hash_str(&json), std::thread::current().id()).replace(['(', ')'], "");
         std::fs::write(&path, &json).map_err(|e| Fail::new("harness/io", e.to_string()))?;
+        let pools = pools_for(item, &json);
+        obs.label(if pools.len() == 64 { "pools=all-1..64" } else { "pools=13-fixed+5" });
         let outp = Command::new(&par)
             .arg("--worker")
             .arg(&path)
             .env("VF_CONC_REPS", self.tier.pick("2", "3"))
+            .env("VF_CONC_POOLS", pools.iter().map(|k| k.to_string()).collect::<Vec<_>>().join(","))
             .stdout(Stdio::piped())
             .stderr(Stdio::null())
             .output();
@@ -484,8 +510,8 @@ impl SubCheck for Conc {
                 _ => {},
             }
         }
-        if seen < serial.len() * POOLS.len() {
-            return Err(Fail::new("harness/worker-output", format!("worker reported {seen} results, expected at least {}", serial.len() * POOLS.len())));
+        if seen < serial.len() * pools.len() {
+            return Err(Fail::new("harness/worker-output", format!("worker reported {seen} results, expected at least {}", serial.len() * pools.len())));
         }
         Ok(())
     }
@@ -507,7 +533,7 @@ fn main() {
         eprintln!("the supervisor must be the build without the concurrent feature");
         std::process::exit(2);
     }
-    run.assume("rayon's scheduler is not controllable: schedules are sampled through 13 pool sizes x 2-3 repetitions per item; a divergence that needs a rare interleaving can be missed");
+    run.assume("rayon's scheduler is not controllable: schedules are sampled through pool sizes (all of 1..64 for library-level items, 18 for proofs) x 1-3 repetitions per item; a divergence that needs a rare interleaving can be missed");
     run.assume("only the proof-of-work nonce and the query data selected through it may differ between builds; they are excluded from the comparison");
     let tier = run.tier;
     std::env::set_var("VF_CONC_BUDGET", tier.pick("1048576", "4194304"));
